@@ -137,7 +137,7 @@ var extAtoms = []string{
 	`\a`, `\-`, `{`, `]`, `}`, `\8`, `\x4`, `\u12`, `\c1`, `\01`, `(?i)`, `\z`, `\A`, `[[:alpha:]]`, `\Q`, `\pL`, `(?P<x>a)`,
 }
 
-var extQuants = []string{"{0}", "{0,1}", "{3}", "{2,3}", "{0,}", "{2,}?", "{1001}", "{,2}"}
+var extQuants = []string{"{0}", "{0,1}", "{3}", "{2,3}", "{0,}", "{2,}?", "{4}", "{,2}"}
 
 func (s *sampler) atom() string {
 	if s.ext && s.rng.Intn(4) == 0 {
@@ -328,9 +328,16 @@ func workload(r *ev.Run, thorough bool) []item {
 	}
 	g := newGram()
 	enumerated := 0
+	// thorough: the length<=4 subject list goes to every pattern of size <= 2 and to
+	// a PRNG-chosen quarter of the size-3 patterns (the rest get the standard list)
+	deepRng := r.Rand("deep-choice")
 	for n := 0; n <= 3; n++ {
 		for _, p := range g.E(n) {
-			if add(p, "enum-size-"+string(rune('0'+n)), deep, false) {
+			set := deep
+			if n == 3 && deepRng.Intn(4) != 0 {
+				set = 0
+			}
+			if add(p, "enum-size-"+string(rune('0'+n)), set, false) {
 				enumerated++
 			}
 		}
@@ -363,6 +370,15 @@ func workload(r *ev.Run, thorough bool) []item {
 		if add(sm.E(3+sm.rng.Intn(10)), "random-extended", 0, true) {
 			want--
 		}
+	}
+	if only := os.Getenv("VERIF_C08_ONLY"); only != "" { // diagnostics: restrict to one origin
+		kept := items[:0]
+		for _, it := range items {
+			if strings.HasPrefix(it.origin, only) {
+				kept = append(kept, it)
+			}
+		}
+		items = kept
 	}
 	r.Set("patterns_total", len(items))
 	return items
